@@ -255,6 +255,10 @@ def run(case):
                     F.append(Finding("oracle", "rotator_bootstrap_read_only", f"{cls}|{op}|labels",
                                      f"{op}.fit(model) re-labelled the model's own results: {k0}: {ch[k0][0][0]!r} -> {ch[k0][1][0]!r} ({len(ch)} entries)"))
         except Exception as e:  # noqa: BLE001
+            if isinstance(e, RuntimeError) and "did not converge" in str(e):
+                # the rotation iteration refusing these numbers is a (history-independent) refusal of the ROTATOR object, which is
+                # discarded here; the model object under test carries on
+                continue
             F.append(Finding("oracle", "history_step_raises", f"{cls}|{op.rstrip('0123N')}", f"{op} raised {type(e).__name__}: {str(e)[:160]} after {case['ops'][:steps-1]}"))
             break
         # after every step: all answers equal those of a fresh model fitted on the data of the last fit
